@@ -87,3 +87,47 @@ def decision_table(body, prog, max_paths=4096):
             continue
         rows.append((atoms, return_value(body, blocks), blocks))
     return rows
+
+
+def bool_truth_table(body, prog):
+    """For a small bool-returning body: (atoms, table) where atoms is the ordered list of distinct
+    boolean terms it branches on / returns, and table maps each assignment (tuple of bools) to the
+    returned bool. Returns None when the body is not of that shape (non-bool decisions, loops)."""
+    rows = decision_table(body, prog)
+    terms = []
+
+    def idx(t):
+        if t not in terms:
+            terms.append(t)
+        return terms.index(t)
+
+    prows = []
+    for atoms, ret, blocks in rows:
+        conds = []
+        for a in atoms:
+            if a[0] != "bool":
+                # normalised comparisons count as opaque boolean atoms too
+                t = (a[0], a[1])
+                conds.append((idx(t), a[2]))
+            else:
+                conds.append((idx(a[1][0]), a[2]))
+        if ret is None:
+            return None
+        if ret[0] == "const" and ret[1] == "bool":
+            r = ("const", bool(ret[2]))
+        else:
+            nb = G.norm_bool(ret, True)
+            t = nb[1][0] if nb[0] == "bool" else (nb[0], nb[1])
+            r = ("atom", idx(t), nb[2])
+        prows.append((conds, r))
+    import itertools
+    table = {}
+    for asg in itertools.product([False, True], repeat=len(terms)):
+        outs = set()
+        for conds, r in prows:
+            if all(asg[i] == pol for i, pol in conds):
+                outs.add(r[1] if r[0] == "const" else (asg[r[1]] == r[2]))
+        if len(outs) != 1:
+            return None
+        table[asg] = next(iter(outs))
+    return terms, table
